@@ -2,34 +2,27 @@ use std::io;
 use std::io::Write;
 
 pub struct WritableBuffer {
-    buf: String,
+    buf: Vec<u8>,
 }
 
 impl WritableBuffer {
     pub fn new() -> WritableBuffer {
-        WritableBuffer { buf: String::new() }
+        WritableBuffer { buf: Vec::new() }
     }
 }
 
 impl From<WritableBuffer> for String {
     fn from(wb: WritableBuffer) -> Self {
-        wb.buf
+        // (a writer may hand over its bytes in chunks that end in the middle of a character,
+        // so the text is put together only when everything has been written)
+        String::from_utf8_lossy(&wb.buf).into_owned()
     }
 }
 
 impl Write for WritableBuffer {
     fn write(&mut self, buf: &[u8]) -> io::Result<usize> {
-        use std::fmt::Write;
-        match String::from_utf8(buf.into()) {
-            Ok(string) => {
-                let l = string.len();
-                match self.buf.write_str(string.as_str()) {
-                    Ok(()) => Ok(l),
-                    Err(_) => Err(io::ErrorKind::InvalidInput.into()),
-                }
-            }
-            Err(_) => Err(io::ErrorKind::InvalidInput.into()),
-        }
+        self.buf.extend_from_slice(buf);
+        Ok(buf.len())
     }
 
     fn flush(&mut self) -> io::Result<()> {
